@@ -123,6 +123,12 @@ impl ChunkSerializer {
             iteration = iteration + 1;
         }
 
+        // A message without a payload still has to reach the peer, so it gets a single
+        // chunk that consists of a header only
+        if slices.is_empty() {
+            slices.push(&message.data[0..0]);
+        }
+
         for (idx, slice) in slices.into_iter().enumerate() {
             self.add_chunk(
                 &mut bytes,
